@@ -1263,7 +1263,7 @@ class tensor:
             return self.copy()
 
         # Check for special case of an order-1 object, has no effect
-        if (order == 1).all():
+        if np.array_equal(order, np.arange(self.ndims)):
             return self.copy()
 
         # Np transpose does error checking on order, acts as permutation
